@@ -14,7 +14,10 @@ Next == i < Len(Trace) /\ i' = i + 1
 \* verdict for one run  [sfx, val, ok, bytes]
 RunClause(mn, shape, run) ==
     LET w == WidthOf(shape, run.sfx, run.val) IN
-    IF shape # "imp" /\ run.sfx = "" /\ MinWidth(run.val) = 0 THEN "ok"       \* no width holds it: unspecified
+    \* without a suffix the width is the smallest of 1..3 bytes that holds the value: when none does there is no
+    \* encoding the statement allows, so the instruction must not be accepted
+    IF shape # "imp" /\ run.sfx = "" /\ MinWidth(run.val) = 0
+    THEN (IF run.ok THEN "assembled an operand that no width of 1..3 bytes holds (no size suffix)" ELSE "ok")
     ELSE IF ~IsaDefined(mn, shape, w)
          THEN (IF run.ok THEN "assembled a combination the 65c816 does not define" ELSE "ok")
     ELSE LET enc == Encoding(mn, shape, w, run.val) IN
